@@ -226,7 +226,11 @@ func c14GenSpec(env *Env, i int) string {
 		}
 	case 7: // reversed / equal / mixed-family ranges
 		a, b := randV4(env), randV4(env)
-		switch r.Intn(4) {
+		switch r.Intn(6) {
+		case 4: // an IPv6 start below the IPv4-mapped block: numerically smaller than every IPv4 end, still another family
+			return []string{"::", "::1", "::fffe:0:0", "::5:6", "0:0:0:0:0:fffe:ffff:ffff"}[r.Intn(5)] + "-" + b.String()
+		case 5:
+			return a.String() + "-" + []string{"::ffff:ffff:ffff", "1::", "ffff::"}[r.Intn(3)]
 		case 0:
 			return a.String() + "-" + a.String()
 		case 1:
